@@ -315,9 +315,9 @@ package pcache
 //@   ghost gttl := 0
 //@   ghost gref := 0
 //@   ghost gpre := false
-//@   at call opt: after ghost gttl := cfg.ttl
-//@   at call opt: after ghost gref := cfg.refreshIn
-//@   at call opt: after ghost gpre := cfg.preload
+//@   at call Option: after ghost gttl := cfg.ttl
+//@   at call Option: after ghost gref := cfg.refreshIn
+//@   at call Option: after ghost gpre := cfg.preload
 //@   loop 1: invariant rangeindex < len(opts) && (rangeindex >= 0 ==> gttl == cfg.ttl && gref == cfg.refreshIn && gpre == cfg.preload) && (rangeindex < 0 ==> cfg.ttl == defaultTTL && cfg.refreshIn == defaultRefreshIn && cfg.preload)
 //@   ensures-local result1 == nil && len(opts) == 0 ==> result0.ttl == defaultTTL && result0.refreshIn == defaultRefreshIn && result0.preload
 //@   ensures-local result1 == nil && len(opts) > 0 ==> result0.ttl == gttl && result0.refreshIn == gref && result0.preload == gpre
